@@ -183,7 +183,9 @@ class CustomState(BaseState):
         """
         if self.index is not None:
             assert self.composite_envelope is not None
-            return self.composite_envelope.measure(self)
+            return self.composite_envelope.measure(
+                self, separate_measurement=separate_measurement, destructive=destructive
+            )
         elif self.index is None:
             if self.expansion_level == ExpansionLevel.Label:
                 assert isinstance(self.state, int)
